@@ -54,7 +54,6 @@ type coalescing struct {
 	hasTimer      atomic.Bool
 	inputCh       chan struct{}
 	currentDur    time.Duration
-	backoffFactor int
 
 	wg      sync.WaitGroup
 	lock    sync.RWMutex
@@ -94,7 +93,6 @@ func NewCoalescing(opts OptionsCoalescing) (RateLimiter, error) {
 		maxDelay:         maxDelay,
 		maxPendingEvents: opts.MaxPendingEvents,
 		currentDur:       initialDelay,
-		backoffFactor:    1,
 		inputCh:          make(chan struct{}),
 		closeCh:          make(chan struct{}),
 		clock:            clock.RealClock{},
@@ -172,10 +170,11 @@ func (c *coalescing) handleInputCh(ctx context.Context, ch chan<- struct{}) {
 		// 5s, the backoff will follow:
 		// 500ms, 1s, 2s, 4s, 5s, 5s, 5s, ...
 		if c.currentDur < c.maxDelay {
-			c.backoffFactor *= 2
-			c.currentDur = time.Duration(float64(c.initialDelay) * float64(c.backoffFactor))
-			if c.currentDur > c.maxDelay {
+			if c.currentDur > c.maxDelay/2 {
+				// Doubling would exceed the max delay (or overflow).
 				c.currentDur = c.maxDelay
+			} else {
+				c.currentDur *= 2
 			}
 		}
 
@@ -217,7 +216,6 @@ func (c *coalescing) reset() {
 
 	c.pendingEvents = 0
 	c.currentDur = c.initialDelay
-	c.backoffFactor = 1
 	c.hasTimer.Store(false)
 	c.timer = nil
 }
